@@ -114,7 +114,7 @@ func srcID(from data.From) int {
 	return -4
 }
 
-func doOp(vm *ort.VM, o Op) (res Res) {
+func doOp(vm data.VM, o Op) (res Res) {
 	res.D = -1
 	defer func() {
 		if r := recover(); r != nil {
@@ -206,8 +206,13 @@ func doOp(vm *ort.VM, o Op) (res Res) {
 		vm.LeaveCall()
 		res.D = -1
 	case "handler":
-		vm.SetExceptionHandler(data.NewIntValue(o.Val))
-		_ = vm.GetExceptionHandler()
+		if h, ok := vm.(interface {
+			SetExceptionHandler(data.Value) data.Value
+			GetExceptionHandler() data.Value
+		}); ok {
+			h.SetExceptionHandler(data.NewIntValue(o.Val))
+			_ = h.GetExceptionHandler()
+		}
 	default:
 		res.R = 2
 	}
@@ -253,6 +258,7 @@ type Config struct {
 	Threads    [][]Op `json:"threads"`
 	GoMaxProcs int    `json:"gomaxprocs"`
 	Stamps     bool   `json:"stamps"` // record invocation/return stamps (adds atomic operations between calls)
+	Temps      []bool `json:"temps"`  // Temps[t]: thread t runs on its own TempVM of the shared base (a request)
 	Repeat     int    `json:"repeat"` // run the same programs on this many fresh VMs (race hunting)
 	KeepAll    bool   `json:"keepall"` // return the results of every repetition
 }
@@ -271,6 +277,10 @@ func runOnce(cfg *Config) [][]Res {
 			defer done.Done()
 			ops := cfg.Threads[t]
 			rs := make([]Res, len(ops))
+			var vm data.VM = vm
+			if t < len(cfg.Temps) && cfg.Temps[t] {
+				vm = ort.NewTempVM(vm) // request-level VM, as HotHandler.ServeHTTP creates one per request
+			}
 			ready.Done()
 			for atomic.LoadInt32(&start) == 0 {
 				runtime.Gosched()
